@@ -63,6 +63,8 @@ Pool == <<
   Ok_("parse_ct_signed_certificate_timestamp", NoArgs, EncSct(Sc)),
   Ok_("parse_ct_signed_certificate_timestamp_list", NoArgs, EncSctList(<<Sc, Sc>>)),
   Ok_("parse_ct_signed_certificate_timestamp_list", NoArgs, <<0, 0>>),
+  Ok_("parse_ct_signed_certificate_timestamp_list", NoArgs, BE16(Len(EncSct(Sc)) + 3) \o EncSct(Sc) \o <<0, 9, 1>>),       \* a valid SCT, then three bytes that are not one
+  Ok_("parse_ct_signed_certificate_timestamp_list", NoArgs, BE16(2 * Len(EncSct(Sc)) + 1) \o EncSct(Sc) \o EncSct(Sc) \o <<0>>),
   Ok_("parse_dh_params", NoArgs, <<0, 2, 1, 2, 0, 0, 0, 1, 5>>),
   Ok_("parse_ecdh_params", NoArgs, <<3, 0, 23, 2, 4, 4>>),
   Ok_("parse_ec_parameters", NoArgs, <<3, 0, 29>>),
